@@ -265,7 +265,8 @@ def _retry_hangs(argv, path, outp, rc, err, e, timeout):
     decided. Returns (rc, err)."""
     import re
     tries = 0
-    while rc == 3 and tries < 40:
+    seen = set()
+    while rc == 3 and tries < 80:
         m = re.search(r"HANG (\d+)", err or "")
         if not m:
             break
@@ -273,8 +274,12 @@ def _retry_hangs(argv, path, outp, rc, err, e, timeout):
         lines = [l for l in open(path).read().splitlines() if l.strip()]
         if idx >= len(lines) or lines[idx].split(" ", 1)[0] in ("E", "E2", "hang"):
             break
-        lines[idx] = "hang"
-        write_lines(path, lines)
+        if idx in seen:
+            lines[idx] = "hang"
+            write_lines(path, lines)
+        else:
+            # a case that passed its time limit once is run again before it is believed (a busy machine is not a hang)
+            seen.add(idx)
         with open(outp, "w") as fo:
             pr = subprocess.run(argv, stdout=fo, stderr=subprocess.PIPE, env=e, text=True, timeout=timeout,
                                 preexec_fn=model_stack(argv[0]))
